@@ -216,7 +216,7 @@ def rule_drain(ctx, M, u):
             if t_.callee.name == "is_empty" and t_.arg(0) == q:
                 skip += bi.outcome_edges(t_, True)
         for name, blocks in (("the key-removal loop", [nxt.block]), ("queue.clear()", [cl[0].block])):
-            r_ = bi.body.reach([t for _, t in ne], avoid_blocks=blocks, stop_blocks=bi.return_blocks, avoid_edges=skip)
+            r_ = bi.reach_from_edges(ne, avoid_blocks=blocks, stop_blocks=bi.return_blocks, avoid_edges=skip)
             ok = not any(x in r_ for x in bi.return_blocks)
             if not ok:
                 probs.append("%s is not reached on every path from a member's end to the return" % name)
